@@ -13,12 +13,14 @@ use crate::refmodel::value::RV;
 use crate::rng::Rng;
 use evalexpr::{Context, ContextWithMutableVariables, DefaultNumericTypes, EmptyContext, EmptyContextWithBuiltinFunctions};
 
-pub const OTHERS: [&str; 16] = [
+pub const OTHERS: [&str; 21] = [
     "foo", "math::nope", "str", "Typeof", "random", "str::regex_matches", "str::regex_replace",
     // a builtin under another namespace is not a builtin
     "math::floor", "math::round", "math::min", "math::len", "str::len", "sqrt", "trim", "math::math::sqrt", "::len",
+    // non-ASCII and keyword-like names are names like any other
+    "λ", "élan", "面积", "not", "and",
 ];
-const KINDS: usize = 7;
+const KINDS: usize = 8;
 const SWITCH: usize = 3;
 const FORMS: usize = 16;
 const USERS: usize = 3;
@@ -88,7 +90,7 @@ impl Phase for Matrix {
             "{}   [context kind {} ({}), builtins {}, user function `{}` {}, variable `{}` {}]",
             src,
             kind,
-            ["HashMapContext", "clone", "after clear_functions", "after clear", "clone, original modified afterwards", "RecordingContext", "fixed empty contexts"][kind],
+            ["HashMapContext", "clone", "after clear_functions", "after clear", "clone, original modified afterwards", "RecordingContext", "fixed empty contexts", "functions defined while builtins were disabled, switch set afterwards"][kind],
             ["on", "off", "toggled twice (on)"][switch],
             name,
             ["absent", "present", "present but failing"][user_mode],
@@ -153,6 +155,19 @@ impl Phase for Matrix {
         }
         let mut model = m.clone();
         let c: Ctx = match kind {
+            7 => {
+                // the other order of construction: disable, define the functions, then set the switch
+                let mut d = Ctx::new();
+                let _ = d.set_builtin_functions_disabled(true);
+                for (k, f) in &m.funs {
+                    observe::register_fn(&mut d, k, f.clone(), &log);
+                }
+                for (k, v) in &m.vars {
+                    let _ = d.set_value(k.clone(), v.to_value());
+                }
+                let _ = d.set_builtin_functions_disabled(off);
+                d
+            },
             1 => c.clone(),
             2 => {
                 c.clear_functions();
